@@ -13,4 +13,7 @@ def genCmdExitsOnError : Bool := true
 def genCmdWritesOnlyAfterCheck : Bool := true
 def checkCmdExitsOnError : Bool := true
 def checkCmdWriteCalls : Nat := 0
+def printFileErrName : String := "filename := strings.TrimPrefix(fileErr.Filename, dir + \"/\")"
+def printFileErrFormat : String := "\"%s:%d:%d: %s\\n\""
+def printFileErrArgs : String := "filename, fileErr.Line, fileErr.Column, fileErr.Err"
 end Sqlc.Gen
